@@ -25,7 +25,7 @@ Definition tasg (mv : bool) (p : param) : bool :=
 (* IS_TRIVIALLY_SWAPPABLE: trivially destructible, move constructible and move assignable,
    no ADL swap (std::byte lives in namespace std, so ADL finds std::swap for it and the
    library swaps it object by object) *)
-Definition tswp (p : param) : bool := match pty p with TTrk | TTrkC | TByte | TTrkMA | TTrkMC => false | _ => true end.
+Definition tswp (p : param) : bool := match pty p with TTrk | TTrkC | TByte | TTrkMA | TTrkMC | TSw => false | _ => true end.
 
 (* ---------- calculate_consecutive_indices ---------- *)
 Inductive ridx := RSkip | RManual | REnd (e : nat).
@@ -257,7 +257,8 @@ Definition ref_assign (mv : bool) (L : list param) (same : bool) (vd : vec) (i :
                      {| m_s := v_mem vs; m_d := v_mem vd; m_same := same |} (seq 0 (length L)) in
   (set_mem vd (m_d x), set_mem vs (m_s x), evs).
 
-(* object-wise swap of a MANUAL field; only the instrumented type reports it *)
+(* object-wise swap of a MANUAL field; the instrumented types (TTrk, and TSw - whose only
+   non-trivial operation is its ADL swap) report it *)
 Fixpoint swap_objs (p : param) (xb yb : nat) (x : mm) (xa ya : Z) (n : nat) : mm * list ev :=
   match n with
   | O => (x, [])
@@ -267,7 +268,7 @@ Fixpoint swap_objs (p : param) (xb yb : nat) (x : mm) (xa ya : Z) (n : nat) : mm
       let by_ := mread (m_d x) ya sz in
       let x1 := wr_d (wr_s x xa by_) ya bx in
       let '(x2, evs) := swap_objs p xb yb x1 (xa + psz p) (ya + psz p) n' in
-      (x2, (match pty p with TTrk => [ESwapO xb xa (psz p) yb ya] | _ => [] end) ++ evs)
+      (x2, (match pty p with TTrk | TSw => [ESwapO xb xa (psz p) yb ya] | _ => [] end) ++ evs)
   end.
 
 (* ElementTraits::swap(lhs, rhs): here "s" is lhs and "d" is rhs *)
